@@ -322,3 +322,32 @@ pub fn slice_get(s: &[Value], i: usize) -> (r: Option<&Value>)
 // R-err: the internal-error value of the out-of-bounds branch
 #[verifier::external_body]
 pub fn err_push_out_of_bounds() -> Error { unimplemented!() }
+
+// ---- binop (thread.rs): the shared skeleton of all 18 arithmetic / comparison instructions
+#[verifier::external_body] pub struct ThreadRef { _p: () }
+// an operand decoded from a stack value by Getable::from_value (Int -> i64, Byte -> u8, Float -> f64): opaque here
+#[verifier::external_body] pub struct Operand { _p: () }
+pub uninterp spec fn decode(v: Value) -> Operand;
+#[verifier::external_body] pub struct OpResult { _p: () }          // the ValueRepr the operation produces
+pub uninterp spec fn result_value(r: OpResult) -> Value;
+impl OpResult {
+    // `result.into()`: ValueRepr -> Value
+    #[verifier::external_body]
+    pub fn into(self) -> (v: Value) ensures v == result_value(self) { unimplemented!() }
+}
+impl StackFrame {
+    // StackFrame::get_value(vm, i) = get_variant(i).map(|v| T::from_value(vm, v)) -- get_variant is verified above
+    #[verifier::external_body]
+    pub fn get_value(&self, vm: &ThreadRef, index: VmIndex) -> (r: Option<Operand>)
+        requires self.wf(), self.frame.offset + index <= u32::MAX
+        ensures r is Some == (index < self@.len()), r is Some ==> r->Some_0 == decode(self@[index as int])
+    { unimplemented!() }
+    // `*stack.last_mut().unwrap() = v` through DerefMut: overwrite the top slot of the frame (panics on an empty frame)
+    #[verifier::external_body]
+    pub fn set_last(&mut self, v: Value)
+        requires old(self).wf(), old(self)@.len() >= 1
+        ensures final(self).stack.values@ == old(self).stack.values@.drop_last().push(v),
+                final(self).stack.frames@ == old(self).stack.frames@, final(self).frame == old(self).frame,
+                final(self).stack.max_stack_size == old(self).stack.max_stack_size,
+    { unimplemented!() }
+}
